@@ -74,7 +74,7 @@ CONTEXTS = ['default', 'custom', 'custom-nofallback', 'bare']
 # ---------------------------------------------------------------------------
 # alphabets (symbols may be multi-character)
 
-SYM_CORE = ['a', ' ', '\n', '\\', '{', '}', '[', ']', '$', '%', '~', '-', '&', '*']
+SYM_CORE = ['a', ' ', '\n', '\\', '{', '}', '[', ']', '$', '%', '~', '-', '&', '*', '\r\n']
 SYM_MULTI = ['\\(', '\\)', '\\[', '\\]', '\\begin{e}', '\\end{e}', '\\m']
 SYM_DEFAULT_EXTRA = ['\\textbf', '\\frac', '\\item', '\\\\', '\\verb', '|', '\\begin{itemize}', '\\end{itemize}',
                      '\\begin{equation}', '\\end{equation}', '\\begin{verbatim}', '\\end{verbatim}', '$$', '\n\n',
@@ -118,7 +118,7 @@ def gen_doc(rnd, ctx, depth=0, math=False):
 
 
 def _maybe_ws(rnd):
-    return rnd.choice(['', '', '', ' ', '\n', '  ', ' %c\n', '\t'])
+    return rnd.choice(['', '', '', ' ', '\n', '  ', ' %c\n', '\t', '\r\n'])
 
 
 def gen_arg(rnd, ctx, depth, math):
@@ -136,7 +136,7 @@ def gen_item(rnd, ctx, depth, math):
     if k < 0.25 or deep:
         return rnd.choice(['a', 'ab', 'b c', ' ', 'x ', ' y', '1', ',', 'a-b', "it's", '\n', 'word\n'])
     if k < 0.32:
-        return rnd.choice(['\n\n', '\n \n', ' \n\n ', '\n\n\n'])
+        return rnd.choice(['\n\n', '\n \n', ' \n\n ', '\n\n\n', '\r\n\r\n', '\x0c\n\n'])
     if k < 0.40:
         return '%' + rnd.choice(['', 'c', ' com{ment', 'x $ y']) + rnd.choice(['\n', '\n  ', '\n\n'])
     if k < 0.50:
